@@ -1031,6 +1031,8 @@ DEEP_SHAPES = {
     'long-value': ('html', 'raw'),               # values / text of 40*D characters, blanks inside a scheme
     'many-siblings': ('html', 'raw'),            # a flat stream of 2*D elements
     'stray-ends': ('raw',),                      # D END events without START, then D STARTs never closed
+    'uri-long': ('uri',),                        # is_safe_uri by itself: noise of 40*D characters inside and in front of a scheme
+    'ent-many': ('ent',),                        # stripentities by itself: D references of every kind, D unterminated ones
 }
 DEEP_LOG = ('comment-layers', 'comment-layers-expression')
 
@@ -1172,6 +1174,10 @@ def expand_deep(case):
         for i in range(2 * D):
             evs += [['S', q(tags[i % 4]), []], ['T', str(i), False], ['E', q(tags[i % 4])]]
         return {'kind': 'raw', 'events': evs, 'cfg': cfg}
+    if shape == 'uri-long':
+        return {'kind': 'uri', 'cfg': cfg, 'text': ' \t' * (10 * D) + 'j' + '\x00a\n' * 0 + 'ava' + '&#9;' * D + 'scr\tipt' + ' ' * (10 * D) + ':alert(1)#' + ':' * D}
+    if shape == 'ent-many':
+        return {'kind': 'ent', 'text': '&amp;&#106;&#x6A;&#X6a;&lt;&bogus;&#;&#1114112;' * D + '&' * D + '&#106' * D + '&amp' * D}
     if shape == 'stray-ends':
         return {'kind': 'raw', 'cfg': cfg,
                 'events': [['E', q(('b', 'object')[i % 2])] for i in range(D)] + [['S', q(('object', 'b', 'object')[i % 3]), []] for i in range(D)]}
